@@ -1,12 +1,26 @@
 /-
   Property C19 — counters / thread-locals: aggregates exact across thread and instance churn.
-  Property theorems only; the model is Babylon/Counter/Model.lean, lemmas in Babylon/Counter/Lemmas*.lean.
+  Property theorems only.  Model: Babylon/Counter/Model.lean (history model of the thread-local
+  families, the id allocators by their C14 specification) and Babylon/Counter/Conc.lean (single-writer
+  cells read by a concurrent reader); lemmas in Babylon/Counter/Lemmas*.lean.
+
+  Every theorem quantifies over ALL histories (`List` of events: thread start / exit, counter creation
+  with ANY admissible — fresh or recycled — instance id, destruction, move, counting with ANY admissible
+  thread id for a thread's first use, reset), resp. over all interleavings of the memory accesses of
+  counting threads and one reading thread.  Hypotheses, each explicit:
+    * `s.tidEnd ≤ tidCap` (= 65408): `for_each` narrows `snapshot.size()` to `uint16_t`;
+      `for_each_u16_wrap_counterexample` shows the hypothesis cannot be dropped;
+    * comparers: fewer than `2^64 - 1` resets in the history (the version must not reach the slots'
+      initial version `SIZE_MAX`).
 -/
-import Babylon.Counter.Model
+import Babylon.Counter.LemmasKinds
+import Babylon.Counter.LemmasCmp
+import Babylon.Counter.LemmasLocal
+import Babylon.Counter.Conc
 import Babylon.Counter.Pinned
 
 namespace Babylon.Properties.C19
-open Babylon.Counter Babylon.Gen.Counter
+open Babylon.Counter Babylon.Gen.Counter Babylon.Core
 
 /-! ## Generated obligations: the source is the one the model was written against -/
 
@@ -52,5 +66,274 @@ theorem gen_src_cmp_comparers : src_cmp_comparers = Pinned.cmp_comparers := rfl
 theorem gen_src_summer_put1 : src_summer_put1 = Pinned.summer_put1 := rfl
 theorem gen_src_summer_put : src_summer_put = Pinned.summer_put := rfl
 theorem gen_src_summer_value : src_summer_value = Pinned.summer_value := rfl
+
+/-! ## Exact aggregates at quiescence -/
+
+/-- **adder_exact.**  After ANY history (thread churn, slots reused by new threads, up to
+`NUM_PER_CACHELINE` instances sharing a line, instance ids recycled in any order, moves, resets),
+`value()` of every live adder is the reference value `r h` = Σ of what was added since its creation /
+last reset (`Adder.refStep`), and a dead handle has no value on either side. -/
+theorem adder_exact (es : List Adder.AEv) (s : Fam Int) (r : Nat → Option Int)
+    (hrun : Adder.run (Fam.init Adder.cfg) (fun _ => none) es = some (s, r))
+    (hcap : s.tidEnd ≤ tidCap) (h : Nat) : Adder.value s h = r h := by
+  rw [Adder.run_eq] at hrun
+  obtain ⟨_, hR⟩ := mRun_exact intMon rfl gen_flags.2.2.2.2 (init_inv _ Adder.num_pos) (init_rinv _ _) hrun hcap
+  rw [Adder.value_eq, mValue_eq, hR h]
+
+/-- **summer_exact.**  The same for `ConcurrentSummer`: sum and count. -/
+theorem summer_exact (es : List Summer.SEv) (s : Fam Summer.Cell) (r : Nat → Option Summer.Cell)
+    (hrun : Summer.run (Fam.init Summer.cfg) (fun _ => none) es = some (s, r))
+    (hcap : s.tidEnd ≤ tidCap) (h : Nat) : Summer.value s h = r h := by
+  rw [Summer.run_eq] at hrun
+  obtain ⟨_, hR⟩ := mRun_exact cellMon rfl gen_flags.2.2.2.2 (init_inv _ Summer.num_pos) (init_rinv _ _) hrun hcap
+  rw [Summer.value_eq, mValue_eq, hR h]
+
+theorem cmp_num_pos (isMax : Bool) : 0 < (Cmp.cfg isMax).num := by cases isMax <;> decide
+
+/-- **maxer_period** (both comparers).  After any history with fewer than `2^64 - 1` resets, `value(T&)`
+of a live maxer / miner returns exactly the reference `r h`: no result when no sample was recorded in the
+current period, else the extreme of the samples of the current period — whichever threads recorded
+them, alive or exited, whatever slots they used. -/
+theorem comparer_period (isMax : Bool) (es : List Cmp.CEv) (s : Cmp.State) (r : Cmp.Ref)
+    (hrun : Cmp.run isMax (Cmp.init isMax) (fun _ => none) es = some (s, r))
+    (hcap : s.fam.tidEnd ≤ tidCap) (hres : Cmp.resets es < Cmp.sizeMax) (h : Nat) :
+    Cmp.value isMax s h = r h := by
+  have hI0 : Inv (Cmp.cfg isMax) (Cmp.init isMax).fam := init_inv _ (cmp_num_pos isMax)
+  obtain ⟨hI, hC⟩ := Cmp.crun_inv isMax gen_flags.2.2.2.2 hI0 (Cmp.init_cinv isMax) hrun hcap (by omega)
+  exact Cmp.value_of_cinv gen_flags.2.2.2.1 hI hC (by omega) h
+
+theorem maxer_period (es : List Cmp.CEv) (s : Cmp.State) (r : Cmp.Ref)
+    (hrun : Cmp.run true (Cmp.init true) (fun _ => none) es = some (s, r))
+    (hcap : s.fam.tidEnd ≤ tidCap) (hres : Cmp.resets es < Cmp.sizeMax) (h : Nat) :
+    Cmp.value true s h = r h := comparer_period true es s r hrun hcap hres h
+
+theorem miner_period (es : List Cmp.CEv) (s : Cmp.State) (r : Cmp.Ref)
+    (hrun : Cmp.run false (Cmp.init false) (fun _ => none) es = some (s, r))
+    (hcap : s.fam.tidEnd ≤ tidCap) (hres : Cmp.resets es < Cmp.sizeMax) (h : Nat) :
+    Cmp.value false s h = r h := comparer_period false es s r hrun hcap hres h
+
+/-! ## A new counter starts from zero -/
+
+/-- **new_counter_zero.**  In every reachable state of every family, a constructor that obtains
+instance id `i` — fresh or recycled from a destroyed instance — yields an instance all of whose visited
+cells hold `T()`: the destructor zeroed its offset in every thread's line before the id was released. -/
+theorem new_counter_zero {β : Type} (c : Cfg β) (hn : 0 < c.num) (s s' : Fam β) (hr : Reach c s)
+    (h i : Nat) (hnew : newInst c s h i = some s') :
+    forEach c s' h = some (List.replicate (bound s' (i / c.num)) c.dflt) := by
+  have hI := reach_inv hn gen_flags.2.2.2.2 hr
+  obtain ⟨h1, h2, h3⟩ := newInst_col hI hnew
+  rw [forEach_eq, h1]
+  simp only [Option.map_some, Option.some.injEq]
+  have : colOf c s' i = fun _ => c.dflt := by
+    funext x; exact h3 x
+  rw [this, List.map_const', List.length_range]
+  rfl
+
+theorem adder_ref_fold (es : List Adder.AEv) : ∀ (s s' : Fam Int) (r r' : Nat → Option Int),
+    Adder.run s r es = some (s', r') → r' = es.foldl Adder.refStep r := by
+  induction es with
+  | nil => intro s s' r r' h; cases h; rfl
+  | cons e es ih =>
+    intro s s' r r' h
+    simp only [Adder.run] at h
+    cases h1 : Adder.step s e with
+    | none => rw [h1] at h; cases h
+    | some s1 => rw [h1] at h; exact ih _ _ _ _ h
+
+/-- … in particular a new adder reads 0 after any history, even when it recycles the id and the storage
+of a destroyed adder that had counted. -/
+theorem new_adder_zero (es : List Adder.AEv) (h i : Nat) (s : Fam Int) (r : Nat → Option Int)
+    (hrun : Adder.run (Fam.init Adder.cfg) (fun _ => none) (es ++ [.new h i]) = some (s, r))
+    (hcap : s.tidEnd ≤ tidCap) : Adder.value s h = some 0 := by
+  rw [adder_exact _ s r hrun hcap h, adder_ref_fold _ _ _ _ _ hrun, List.foldl_append]
+  simp [Adder.refStep, upd1]
+
+theorem cmp_ref_fold (isMax : Bool) (es : List Cmp.CEv) : ∀ (s s' : Cmp.State) (r r' : Cmp.Ref),
+    Cmp.run isMax s r es = some (s', r') → r' = es.foldl (Cmp.refStep isMax) r := by
+  induction es with
+  | nil => intro s s' r r' h; cases h; rfl
+  | cons e es ih =>
+    intro s s' r r' h
+    simp only [Cmp.run] at h
+    cases h1 : Cmp.step isMax s e with
+    | none => rw [h1] at h; cases h
+    | some s1 => rw [h1] at h; exact ih _ _ _ _ h
+
+/-- … and a new maxer / miner reports "no result". -/
+theorem new_comparer_no_result (isMax : Bool) (es : List Cmp.CEv) (h i : Nat) (s : Cmp.State) (r : Cmp.Ref)
+    (hrun : Cmp.run isMax (Cmp.init isMax) (fun _ => none) (es ++ [.new h i]) = some (s, r))
+    (hcap : s.fam.tidEnd ≤ tidCap) (hres : Cmp.resets (es ++ [.new h i]) < Cmp.sizeMax) :
+    Cmp.value isMax s h = some none := by
+  rw [comparer_period isMax _ s r hrun hcap hres h, cmp_ref_fold _ _ _ _ _ _ hrun, List.foldl_append]
+  simp [Cmp.refStep, upd1]
+
+/-! ## `local()` is private and stable -/
+
+/-- **local_private_stable (privacy).**  In every reachable state: distinct live threads have distinct
+slots; `local()` — through the per-thread cache or not — returns the caller's own cell of that very
+instance (`locOf`: storage and offset of the instance id, slot of the thread id); the cells of distinct
+(instance, thread) pairs are distinct. -/
+theorem local_private {β : Type} (c : Cfg β) (hn : 0 < c.num) (s : Fam β) (hr : Reach c s) :
+    (∀ t t' x, s.tidOf t = some x → s.tidOf t' = some x → t = t') ∧
+    (∀ t h j s' l, localAt c s t h j = some (s', l) → s'.tidEnd ≤ tidCap → locOf c s' h t = some l) ∧
+    (∀ h h' t t' l, locOf c s h t = some l → locOf c s h' t' = some l → h = h' ∧ t = t') := by
+  have hI := reach_inv hn gen_flags.2.2.2.2 hr
+  exact ⟨hI.tidInj, fun t h j s' l hl hc => local_returns_own hI hl hc, fun h h' t t' l => locOf_inj hI⟩
+
+/-- **local_private_stable (stability).**  Two `local()` calls of the same thread on the same instance,
+with any history in between during which the thread does not exit and the handle keeps denoting the
+instance, return the same cell. -/
+theorem local_stable {β : Type} (c : Cfg β) (hn : 0 < c.num) (s s1 s2 s3 : Fam β) (hr : Reach c s)
+    (t h j j' : Nat) (l l' : Loc) (es : List (Ev β))
+    (hl : localAt c s t h j = some (s1, l)) (hrun : run c s1 es = some s2) (hcap : s3.tidEnd ≤ tidCap)
+    (halive : ∀ e ∈ es, e ≠ Ev.texit t) (hsame : s2.instOf h = s.instOf h)
+    (hl' : localAt c s2 t h j' = some (s3, l')) : l' = l := by
+  have hz := gen_flags.2.2.2.2
+  have hI := reach_inv hn hz hr
+  have hc2 : s2.tidEnd ≤ tidCap := Nat.le_trans (localAt_tidEnd_mono hl') hcap
+  have hc1 : s1.tidEnd ≤ tidCap := Nat.le_trans (run_tidEnd_mono hrun) hc2
+  obtain ⟨i, hi, hk, ho, _, hI1, hF, _⟩ := localAt_spec hI hl hc1
+  have hI2 := run_inv hz hI1 hrun hc2
+  have ht2 := run_tid_stable hz hI1 hrun hc2 halive hF.tid
+  obtain ⟨i', hi', hk', ho', _, _, hF', _⟩ := localAt_spec hI2 hl' hcap
+  rw [hsame, hi] at hi'
+  cases hi'
+  have := hF'.tidOld _ ht2
+  cases l; cases l'
+  simp only at hk ho hk' ho' this
+  simp only [Loc.mk.injEq]
+  exact ⟨hk'.trans hk.symm, this.symm, ho'.trans ho.symm⟩
+
+/-! ## `for_each` / `for_each_alive` coverage -/
+
+/-- **for_each_covers.**  A slot a thread ever used for instance id `i` is visited by every later
+`for_each` of whichever handle then holds that instance (whether the thread still lives or not), in slot
+order, and the walk shows the cell's current value. -/
+theorem for_each_covers {β : Type} (c : Cfg β) (hn : 0 < c.num) (s s1 s2 : Fam β) (hr : Reach c s)
+    (t h j : Nat) (f : β → β) (l : Loc) (es : List (Ev β)) (h' i : Nat)
+    (hu : updAt c s t h j f = some (s1, l)) (hrun : run c s1 es = some s2) (hcap : s2.tidEnd ≤ tidCap)
+    (hi : s.instOf h = some i) (hi' : s2.instOf h' = some i) :
+    ∃ cells, forEach c s2 h' = some cells ∧ l.tid < cells.length ∧
+      cells[l.tid]? = some (s2.cell (i / c.num) l.tid (i % c.num)) := by
+  have hz := gen_flags.2.2.2.2
+  have hI := reach_inv hn hz hr
+  have hc1 : s1.tidEnd ≤ tidCap := Nat.le_trans (run_tidEnd_mono hrun) hcap
+  obtain ⟨i0, hi0, _, _, hlt, _, _, _, _⟩ := upd_cols hI hu hc1
+  rw [hi] at hi0; cases hi0
+  obtain ⟨_, _, _, _, _, _, _, _, _, _, _, hI1⟩ := updAt_spec hI hu hc1
+  have hmono := run_bound_mono hz hI1 hrun hcap (i / c.num)
+  have hb : l.tid < bndOf c s2 i := Nat.lt_of_lt_of_le hlt hmono
+  refine ⟨_, by rw [forEach_eq, hi']; rfl, by simpa using hb, ?_⟩
+  simp only [List.getElem?_map, List.getElem?_range hb, Option.map_some]
+  rfl
+
+/-- **for_each_alive_exact.**  Both overloads of `for_each_alive` visit exactly the slots of the live
+threads that exist in the instance's storage, each once, in ascending order, with the cell's value. -/
+theorem for_each_alive_exact {β : Type} (c : Cfg β) (hn : 0 < c.num) (s : Fam β) (hr : Reach c s)
+    (h i : Nat) (hi : s.instOf h = some i) :
+    ∃ L, forEachAlive c s h = some L ∧ forEachAliveConst c s h = some L ∧
+      (∀ x v, (x, v) ∈ L ↔ (∃ t, t ∈ s.live ∧ s.tidOf t = some x) ∧ x < s.size (i / c.num) ∧
+        v = s.cell (i / c.num) x (i % c.num)) ∧
+      (L.map (·.1)).Pairwise (· < ·) := by
+  have hI := reach_inv hn gen_flags.2.2.2.2 hr
+  refine ⟨((aliveTids s).filter (· < s.size (i / c.num))).map (fun x => (x, s.cell (i / c.num) x (i % c.num))),
+    ?_, ?_, ?_, ?_⟩
+  · unfold forEachAlive; rw [gen_flags.2.1]; exact forEachAlive_clipped hI hi
+  · unfold forEachAliveConst; rw [gen_flags.2.2.1]; exact forEachAlive_clipped hI hi
+  · intro x v
+    simp only [List.mem_map, List.mem_filter, decide_eq_true_eq, Prod.mk.injEq]
+    constructor
+    · rintro ⟨y, ⟨hy, hlt⟩, rfl, rfl⟩
+      exact ⟨(mem_aliveTids hI y).mp hy, hlt, rfl⟩
+    · rintro ⟨hx, hlt, rfl⟩
+      exact ⟨x, ⟨(mem_aliveTids hI x).mpr hx, hlt⟩, rfl, rfl⟩
+  · rw [List.map_map]
+    have : ((fun p : Nat × β => p.1) ∘ fun x => (x, s.cell (i / c.num) x (i % c.num))) = id := rfl
+    rw [this, List.map_id]
+    exact (List.pairwise_lt_range.filter _).filter _
+
+/-! ## Reads that overlap adds -/
+
+/-- **adder_concurrent_bounds.**  For every interleaving of the loads / stores of any number of counting
+threads with the loads of a reader: the value a `value()` call returns lies between
+`c0 + negs` and `c0 + poss`, where `c0` = Σ of the adds completed before the read took its bound and
+`negs` / `poss` = Σ of the negative / positive parts of the adds that overlap the read (in flight when
+it started, or started before it ended). -/
+theorem adder_concurrent_bounds (s : Conc.CState) (hr : Reachable (· = Conc.CState.init) Conc.Step s)
+    (res : Int) (hres : s.result = some res) (hidle : s.rpc = none) :
+    s.c0 + s.negs ≤ res ∧ res ≤ s.c0 + s.poss :=
+  (Conc.reach_cinv s hr).finished res hres hidle
+
+/-- … for non-negative adds: between the sum of the adds completed before the read started and the sum
+of the adds started before it ended. -/
+theorem adder_concurrent_bounds_nonneg (s : Conc.CState) (hr : Reachable (· = Conc.CState.init) Conc.StepNN s)
+    (res : Int) (hres : s.result = some res) (hidle : s.rpc = none) :
+    s.c0 ≤ res ∧ res ≤ s.c0 + s.poss := by
+  obtain ⟨hI, hN⟩ := Conc.reachNN_inv s hr
+  have := hI.finished res hres hidle
+  rw [hN.2] at this
+  omega
+
+/-! ## The `uint16_t` narrowing: the hypothesis `tidEnd ≤ tidCap` is necessary -/
+
+/-- the main thread is handed thread id 65408 (no live thread holds it): its line lives in block 511,
+`snapshot.size()` becomes 65536 and `static_cast<uint16_t>` makes it 0 -/
+def wrapHist : List Adder.AEv := [.new 1 0, .add 0 1 65408 5]
+
+/-- **for_each_u16_wrap_counterexample.**  One step beyond the cap (`tidEnd = tidCap + 1`) `for_each`
+walks nothing: the adder that counted 5 reads 0.  (In the real allocator thread id 65408 needs 65409
+threads of one type alive at once; the documentation promises 65534.) -/
+theorem for_each_u16_wrap_counterexample :
+    ∃ s r, Adder.run (Fam.init Adder.cfg) (fun _ => none) wrapHist = some (s, r) ∧
+      s.tidEnd = tidCap + 1 ∧ Adder.value s 1 = some 0 ∧ r 1 = some 5 := by
+  have key : (Adder.run (Fam.init Adder.cfg) (fun _ => none) wrapHist).map
+      (fun p => (p.1.tidEnd, Adder.value p.1 1, p.2 1)) = some (65409, some 0, some 5) := by decide
+  cases hrun : Adder.run (Fam.init Adder.cfg) (fun _ => none) wrapHist with
+  | none => rw [hrun] at key; cases key
+  | some p =>
+    rw [hrun] at key
+    simp only [Option.map_some, Option.some.injEq, Prod.mk.injEq] at key
+    exact ⟨p.1, p.2, rfl, key.1, key.2.1, key.2.2⟩
+
+/-! ## Non-vacuity: concrete histories satisfy every hypothesis used above -/
+
+/-- two adders share a line (ids 0, 1); thread 1 counts and exits; thread 2 reuses its slot 0 and counts
+on; the main thread counts in slot 1; adder 1 is destroyed, adder 3 recycles its id 0 and reads 0;
+adders 2 and 3 are swapped by a move assignment. -/
+def demoHist : List Adder.AEv :=
+  [.new 1 0, .new 2 1, .tstart 1, .add 1 1 0 5, .add 1 2 0 7, .texit 1, .tstart 2, .add 2 1 0 (-3),
+   .add 0 2 1 4, .drop 1, .new 3 0]
+
+example : (Adder.run (Fam.init Adder.cfg) (fun _ => none) demoHist).map
+    (fun p => (decide (p.1.tidEnd ≤ tidCap), Adder.value p.1 1, Adder.value p.1 2, Adder.value p.1 3, p.2 2)) =
+    some (true, none, some 11, some 0, some 11) := by decide
+
+example : (Adder.run (Fam.init Adder.cfg) (fun _ => none) (demoHist ++ [.swap 2 3, .add 2 2 0 1])).map
+    (fun p => (Adder.value p.1 2, Adder.value p.1 3)) = some (some 1, some 11) := by decide
+
+/-- a maxer over two periods: samples of an exited thread count, the slot reused by the next thread
+carries the old period's value into the comparison, `reset` opens an empty period -/
+def demoCmp : List Cmp.CEv :=
+  [.new 1 0, .tstart 1, .put 1 1 0 5, .texit 1, .tstart 2, .put 2 1 0 3, .put 0 1 1 (-9)]
+
+example : (Cmp.run true (Cmp.init true) (fun _ => none) demoCmp).map
+    (fun p => (decide (p.1.fam.tidEnd ≤ tidCap), Cmp.value true p.1 1, p.2 1)) =
+    some (true, some (some 5), some (some 5)) := by decide
+
+example : (Cmp.run true (Cmp.init true) (fun _ => none) (demoCmp ++ [.reset 1, .put 2 1 0 (-4)])).map
+    (fun p => (Cmp.value true p.1 1, decide (Cmp.resets (demoCmp ++ [.reset 1, .put 2 1 0 (-4)]) < Cmp.sizeMax))) =
+    some (some (some (-4)), true) := by decide
+
+/-- a reader overlapping two writers: the read starts while slot 0's owner is inside `count(3)`,
+slot 1's owner adds `-2` during the read; the value returned, 3, lies in `[c0 + negs, c0 + poss] = [-2, 3]` -/
+def demoConc : List Conc.CAct :=
+  [.wLoad 0 3, .rStart 2, .wStore 0, .rLoad, .wLoad 1 (-2), .rLoad, .wStore 1, .rEnd]
+
+def runConc : Conc.CState → List Conc.CAct → Option Conc.CState
+  | s, [] => some s
+  | s, a :: as => (Conc.cstep s a).bind (fun t => runConc t as)
+
+example : (runConc Conc.CState.init demoConc).map (fun s => (s.result, s.c0, s.negs, s.poss)) =
+    some (some 3, 0, -2, 3) := by decide
 
 end Babylon.Properties.C19
